@@ -84,6 +84,8 @@ type Frame struct {
 	// paramFns: function-typed parameters of the function under verification (and the free
 	// variables / callee parameters they flow into) -> contract key "pkg::Func#param" (paramspec)
 	paramFns map[ssa.Value]string
+	// cellParamFns (top frame only): local cells known to hold such a parameter (location -> key)
+	cellParamFns map[string]string
 	cellClosures map[string]*closureVal
 
 	// position of the instruction being executed (for spec name resolution in inlined callees)
@@ -106,7 +108,7 @@ var frameCounter int
 
 func (g *Gen) newFrame(fn *ssa.Function, parent *Frame) *Frame {
 	frameCounter++
-	f := &Frame{g: g, fn: fn, parent: parent, paramFns: map[ssa.Value]string{}, vals: map[ssa.Value]T{}, locs: map[ssa.Value]*Loc{},
+	f := &Frame{g: g, fn: fn, parent: parent, paramFns: map[ssa.Value]string{}, cellParamFns: map[string]string{}, vals: map[ssa.Value]T{}, locs: map[ssa.Value]*Loc{},
 		tuples: map[ssa.Value][]T{}, closures: map[ssa.Value]*closureVal{}, binfo: map[*ssa.BasicBlock]*BInfo{},
 		lets: map[string]T{}, params: map[string]T{}, rangeIt: map[ssa.Value]*mapRange{},
 		staticFns: map[ssa.Value]*ssa.Function{}, cellClosures: map[string]*closureVal{}}
